@@ -143,9 +143,10 @@ def classify(ctx, results, known, accept_classes=None, stmt_wrongrepl=False):
                 unknown.append(f)
         if c["err"]:
             st["errors"] += 1
-            if not c.get("note", "").startswith("universe"):
+            if not c.get("note", "").startswith("universe") and not c["err"].startswith("parse:"):
                 # whole-file vectors may legitimately end in a reported error
-                # (a pattern that also matches type positions): not judged here
+                # (a pattern that also matches type positions): not judged here.  A patch of the corpus that
+                # cannot even be LOADED is judged: every corpus vector is a well-formed patch
                 st["skipped_errors"] = st.get("skipped_errors", 0) + 1
                 unknown = []
         if unknown:
